@@ -8,6 +8,8 @@ from contracts.lib import *  # noqa
 
 LEVEL = "other"
 MANIFEST_ENTRY = {"text": 'Level other because part of the obligations are shape-bounded (write/test/read vectors of length 0..2; the vector loop of writev is ALSO proved for any length by an invariant). Unbounded proof, for all container contents, offsets, lengths and data, that _read_share_data/_write_share_data/_change_container_size implement a growable byte array with zero gap fill and never alter leases, enabler or nodeid.', "note": 'Trusted: POSIX file model (atomic seek/read/write with zero gap fill), big-endian struct codec as uninterpreted bijection, pyvc engine, z3. Termination not proved. Sequences covered by composition of per-call contracts on well-formed containers.'}
+MANIFEST_ENTRY["text"] += " Bounded end-to-end stand-in (run-time contract, never counted as proved): contracts/grid_http.py drives the real StorageServer through seeded histories (allocate, chunked/overlapping/conflicting/overrunning writes, abort, 31-minute timeout, reads, leases, read-test-write with failing tests, truncation, deletion, wrong write enabler) and compares it after every operation with a plain byte-array model: visible shares, bytes, space reserved for uploads in progress, mutable slots."
+MANIFEST_ENTRY["technique"] = MANIFEST_ENTRY.get("technique", "contract-based deductive verification: pre/postconditions on the real functions, VCs generated from the AST, discharged by z3/cvc5") + "; plus a bounded run-time contract: the real StorageServer against a byte-array model over seeded histories (stand-in, labelled bounded)"
 EXPLANATION = ("Pre/postconditions on the real MutableShareFile methods over an array model of the container file; "
                "every obligation holds for all file contents, offsets, lengths and data (no bound).")
 TRUSTED = ["file model: POSIX seek/read/write incl. zero gap fill (DESIGN 2.6)",
@@ -518,6 +520,11 @@ class ReadV(CheckTestV):
 
     def canary(self, I, a, out):
         return [("canary", z3.BoolVal(len(out.value) == 0))]
+
+
+def extra_checks(rep, tier):
+    from contracts import grid_http
+    grid_http.grid_check(rep, tier, "C23")
 
 
 def contracts(tier):
